@@ -46,14 +46,14 @@ std::string op_str(const Op& op) {
     case OP_CALL: o << " obj" << (int)op.obj << '.' << FNN[op.fn] << '('; if (op.fn != Z0) o << (int)op.a1; if (op.fn == F2) o << ',' << (int)op.a2; o << ')'; if (op.k1 == 1) o << " [from a catch handler]"; break;
     case OP_DESTROY_MOCK: case OP_ARM_REPORTER: o << " obj" << (int)op.obj; if (op.kind == OP_DESTROY_MOCK && op.k1 == 1) o << " [during stack unwinding]"; break;
     case OP_MOVE_MOCK: o << " obj" << (int)op.obj << " -> obj" << (int)op.k1; break;
-    case OP_ASSIGN_SEQ: o << " s" << (int)op.s1; if (op.k1 == 1) o << " from s" << (int)op.s2; break;
+    case OP_ASSIGN_SEQ: o << " s" << (int)op.s1; if (op.k1 >= 1) o << " from s" << (int)op.s2 << (op.k1 == 2 ? " (the moved-from object is destroyed at once)" : " (the moved-from object stays alive)"); break;
     case OP_DESTROY_SEQ: case OP_MOVE_SEQ: o << " s" << (int)op.s1; break;
     case OP_NEW_WATCHED: case OP_DELETE_WATCHED: o << " w" << (int)op.obj; if (op.kind == OP_DELETE_WATCHED && op.k1 == 1) o << " [during stack unwinding]"; break;
     case OP_COPY_WATCHED: case OP_MOVECONS_WATCHED: o << " w" << (int)op.obj << " -> new w" << (int)op.k1; break;
     case OP_ASSIGN_WATCHED: case OP_MOVEASSIGN_WATCHED: o << " w" << (int)op.obj << " = w" << (int)op.k1; break;
     case OP_PUSH_TRACER: o << " kind=" << (int)op.k1; break;
     case OP_SET_REPORTER: o << " gen=" << (int)op.k1 << (op.k2 ? " (pair)" : " (single)"); break;
-    case OP_ARM_OK: o << " gen=" << (int)op.k1; break;
+    case OP_ARM_OK: if (op.k1 == 9) o << " (the OK callback repeats the reported call once)"; else o << " gen=" << (int)op.k1; break;
     default: break;
   }
   return o.str();
